@@ -26,7 +26,7 @@ VARIABLES status, config, hist, ctx, output, out, lastStep, errv, dirty
 vars == <<mi, status, config, hist, ctx, output, out, lastStep, errv, dirty>>
 
 Pack == [config |-> config, hist |-> hist, status |-> status, ctx |-> ctx, queue |-> <<>>,
-         out |-> <<>>, err |-> NoErr, rd |-> 0, output |-> output, gv |-> <<>>, faults |-> {}, halt |-> FALSE]
+         out |-> <<>>, err |-> NoErr, rd |-> 0, output |-> output, gv |-> <<>>, faults |-> {}, halt |-> FALSE, slow |-> 0]
 
 HistOwnersOf(m) == {s \in Machines[m].states :
                       \E i \in 1..Len(Machines[m].children[s]) :
